@@ -156,7 +156,7 @@ fn trees(alpha: &str, max_len: usize) -> Box<dyn Check> {
         alpha_name: alpha.into(),
         alpha: cov_alphabet(alpha),
         max_len,
-        cap_per_word: 4_000,
+        cap_per_word: word_cap(),
         judge: mk_judge(cache, board),
         extra: Box::new(move || json!({"worst_error_over_envelope": b2.dump()})),
     })
